@@ -319,6 +319,10 @@ pub struct World {
     /// explicit message bytes (minimised worlds); the program is then ignored
     #[serde(default)]
     pub raw_message: Option<Vec<u8>>,
+    /// the receiver's history: messages it received, validated and evaluated earlier on the same
+    /// thread (a long-lived receiver). Their own verdicts are not judged here.
+    #[serde(default)]
+    pub prior: Vec<World>,
 }
 
 fn yes() -> bool {
@@ -630,6 +634,11 @@ fn receive(ch: Channel, msg: &[u8], honest: bool, orig_hash: Option<u64>, obs: &
 }
 
 fn run_world_inner(w: &World) -> Obs {
+    for earlier in &w.prior {
+        let mut e = earlier.clone();
+        e.prior.clear();
+        let _ = guarded(|| run_world_inner(&e));
+    }
     let mut obs = Obs::default();
     let seedtag = tag(w.program.as_ref().map(|p| p.src.as_str()).unwrap_or("raw"));
     let (mut msg, orig_hash) = if let Some(raw) = &w.raw_message {
@@ -887,7 +896,7 @@ struct Acc {
     accepted_damaged: u64,
     d: Digest,
     seen: BTreeSet<String>,
-    pending: Vec<(World, Finding)>,
+    pending: Vec<(World, Finding, Vec<World>)>,
     last_summary: String,
 }
 
@@ -909,10 +918,22 @@ fn absorb(o: &Obs, w: &World, acc: &mut Acc) {
     for f in &o.findings {
         acc.d.str(&f.signature);
         if acc.seen.insert(f.signature.clone()) {
-            acc.pending.push((w.clone(), f.clone()));
+            acc.pending.push((w.clone(), f.clone(), vec![]));
         }
     }
     acc.last_summary = o.summary.clone();
+}
+
+/// Absorb a batch that ran on ONE receiver thread: a finding's history is the part of the batch
+/// that ran before it (used only if the world alone does not reproduce the finding).
+fn absorb_batch(obs: &[Obs], ws: &[World], acc: &mut Acc) {
+    for (j, (o, w)) in obs.iter().zip(ws.iter()).enumerate() {
+        let before = acc.pending.len();
+        absorb(o, w, acc);
+        for p in acc.pending.iter_mut().skip(before) {
+            p.2 = ws[..j].to_vec();
+        }
+    }
 }
 
 fn run_sweep(base: &World, acc: &mut Acc) {
@@ -932,9 +953,7 @@ fn run_sweep(base: &World, acc: &mut Acc) {
             batch.push(w);
             if batch.len() >= 512 {
                 let ws = std::mem::take(&mut batch);
-                for (o, w) in run_worlds(keys, &ws).iter().zip(ws.iter()) {
-                    absorb(o, w, acc);
-                }
+                absorb_batch(&run_worlds(keys, &ws), &ws, acc);
             }
         };
         // the fault-free channel first: compiler / converter output must be accepted
@@ -1095,9 +1114,7 @@ fn run_sweep(base: &World, acc: &mut Acc) {
         // flush the last partial batch
         let _ = &mut go;
         let ws = std::mem::take(&mut batch);
-        for (o, w) in run_worlds(keys, &ws).iter().zip(ws.iter()) {
-            absorb(o, w, acc);
-        }
+        absorb_batch(&run_worlds(keys, &ws), &ws, acc);
     }
 }
 
@@ -1106,7 +1123,7 @@ pub fn make_world(plan: &CasePlan, seed: u64, idx: u64) -> (World, &'static str,
     let mut p = Prng::for_case(seed, "C16", idx);
     let keys = Keys::draw(&mut p);
     let dedup = p.chance(3, 4);
-    let mut w = World { program: None, dedup, keys, channel: Channel::JsonSsa, faults: vec![], raw_message: None };
+    let mut w = World { program: None, dedup, keys, channel: Channel::JsonSsa, faults: vec![], raw_message: None, prior: vec![] };
     match family {
         "honest" => {
             // compiler / converter outputs must be accepted (fault-free channel)
@@ -1155,10 +1172,47 @@ fn has_class(o: &Obs, class: &str) -> Option<Finding> {
     o.findings.iter().find(|f| f.class == class).cloned()
 }
 
-pub fn minimise(w: &World, f: &Finding) -> (World, Finding) {
+pub fn minimise(w: &World, f: &Finding, history: &[World]) -> (World, Finding) {
     let class = f.class.clone();
     let mut best = w.clone();
     let mut bf = f.clone();
+    // does the world reproduce on a fresh receiver? if not, the receiver's history matters
+    if has_class(&run_world(&best), &class).is_none() && !history.is_empty() {
+        let mut cand = best.clone();
+        cand.prior = history.to_vec();
+        match has_class(&run_world(&cand), &class) {
+            None => return (best, bf), // reported as irreproducible by the driver
+            Some(f2) => {
+                best = cand;
+                bf = f2;
+            }
+        }
+        // shrink the history: drop chunks while the finding persists
+        let mut chunk = (best.prior.len() / 2).max(1);
+        let mut budget = 80;
+        while chunk >= 1 && budget > 0 {
+            let mut i = 0;
+            let mut progressed = false;
+            while i < best.prior.len() && budget > 0 {
+                budget -= 1;
+                let mut cand = best.clone();
+                let end = (i + chunk).min(cand.prior.len());
+                cand.prior.drain(i..end);
+                if let Some(f2) = has_class(&run_world(&cand), &class) {
+                    best = cand;
+                    bf = f2;
+                    progressed = true;
+                } else {
+                    i = end;
+                }
+            }
+            if chunk == 1 && !progressed {
+                break;
+            }
+            chunk = if chunk > 1 { chunk / 2 } else { 1 };
+        }
+        bf.what = format!("{} [only on a receiver that handled {} earlier messages on the same thread]", bf.what, best.prior.len());
+    }
     let mut i = 0;
     while i < best.faults.len() && best.faults.len() > 1 {
         let mut cand = best.clone();
@@ -1221,8 +1275,8 @@ pub fn run_case(plan: &CasePlan, seed: u64, idx: u64) -> CaseResult {
     acc.d.u64(p.draws);
     *acc.counters.entry("damaged_circuits_accepted_and_evaluated".into()).or_insert(0) += acc.accepted_damaged;
     let mut violations = vec![];
-    for (fw, f) in std::mem::take(&mut acc.pending) {
-        let (mw, mf) = minimise(&fw, &f);
+    for (fw, f, hist) in std::mem::take(&mut acc.pending) {
+        let (mw, mf) = minimise(&fw, &f, &hist);
         violations.push(Violation {
             property: "C16".into(),
             class: mf.class.clone(),
